@@ -65,15 +65,19 @@ Theorem C09_leftover_irrelevant_top : forall tn ohf d junk, plain d ->
   invoke_named w faults fl tn ohf (set mainfile (File junk) d) = invoke_named w faults fl tn ohf d.
 Proof. exact (p_leftover_top w faults fl repaired). Qed.
 
-Theorem C09_leftover_irrelevant_magefilesdir : forall tn ohf d sub junk,
+(* a leftover in magefiles/ when magefiles/ is the directory that is used *)
+Theorem C09_leftover_irrelevant_magefilesdir : forall tn d sub junk,
   lookup d magefilesDir = Some (Dir sub) -> plain sub ->
-  invoke_named w faults fl tn ohf (set magefilesDir (Dir (set mainfile (File junk) sub)) d) = invoke_named w faults fl tn ohf d.
+  invoke_named w faults fl tn false (set magefilesDir (Dir (set mainfile (File junk) sub)) d) = invoke_named w faults fl tn false d.
 Proof. exact (p_leftover_sub w faults fl repaired). Qed.
 
+(* [remove_stale_top ohf]: a stale file is removed in "." and - since 62b109f - in magefiles/ only
+   when that is the directory used *)
 Theorem C09_clean_top : forall tn ohf d, f_keep fl = false ->
   nolink d -> (forall sub, lookup d magefilesDir = Some (Dir sub) -> nolink sub) ->
-  fst (invoke_named w faults fl tn ohf d) = remove_stale_top d.
+  fst (invoke_named w faults fl tn ohf d) = remove_stale_top ohf d.
 Proof. exact (p_clean_top w faults fl repaired repaired2). Qed.
+
 (* -compile <out> with the output path inside the magefile directory ([invoke_compile]; for a
    path elsewhere the directory theorems above apply as they are and [output_after] describes the
    path).  Whatever fails - every fault assignment: if the run does not get to the `return 0`
@@ -116,6 +120,21 @@ Theorem C09_directory_choice : forall w faults fl tn ohf d,
   (forall sub, lookup (rs w d) magefilesDir <> Some (Dir sub)) ->
   invoke_named w faults fl tn ohf d = invoke_dir w faults (with_mfdir fl tn) (rs w d).
 Proof. exact invoke_named_top. Qed.
+
+(* "." has magefiles of its own, so magefiles/ is NOT the directory used: it is left exactly as
+   it is, whatever is in it - a file called mage_output_file.go (perhaps another mage's, running
+   there) included; any world, any faults *)
+Theorem C09_unchosen_magefiles_dir_untouched : forall w faults fl tn d e, nolink d ->
+  lookup d magefilesDir = Some e ->
+  lookup (fst (invoke_named w faults fl tn true d)) magefilesDir = Some e.
+Proof. exact unchosen_magefiles_untouched. Qed.
+
+(* before commit 62b109f that file was removed all the same *)
+Theorem C09_before_62b109f_refuted : exists w faults fl d sub,
+  lookup d magefilesDir = Some (Dir sub) /\ lookup sub mainfile = Some (File "in use by another mage") /\
+  lookup (fst (invoke_named w faults fl false true d)) magefilesDir = Some (Dir sub) /\
+  lookup (fst (invoke_named_before_62b109f w faults fl false true d)) magefilesDir <> Some (Dir sub).
+Proof. exact before_62b109f_refuted. Qed.
 
 (* before commit 1372a21 ([w_cleanup] = false) C09_clean was FALSE: when the template write
    failed the truncated generated file stayed in the directory (GenerateMainfile's error return
@@ -182,6 +201,8 @@ Print Assumptions C09_crash_then_run.
 Print Assumptions C09_leftover_irrelevant_top.
 Print Assumptions C09_leftover_irrelevant_magefilesdir.
 Print Assumptions C09_clean_top.
+Print Assumptions C09_unchosen_magefiles_dir_untouched.
+Print Assumptions C09_before_62b109f_refuted.
 Print Assumptions C09_compile_exactly_the_output.
 Print Assumptions C09_compile_failure_changes_nothing.
 Print Assumptions C09_compile_other_entries_untouched.
